@@ -331,7 +331,7 @@ def run(ctx, rep):
         raise AnchorMissing("Expr::for_type")
     ft = ft[0]
     ri = ft.calls_to("compiler::ast::math_expr::Expr::root_ident")
-    isop = ft.calls_to("compiler::ast::math_expr::Op::is_op_assign")
+    isop, der_isop = rules.storing_operator_conditions(F, ft)
     gots = ft.calls_to("compiler::ast::r#type::TypeLayout::get_output_type")
     if not gots:
         raise AnchorMissing("get_output_type call in Expr::for_type")
@@ -340,7 +340,7 @@ def run(ctx, rep):
     info = "no Ident::is_const test on the root of a compound-assignment target"
     if consts and isop:
         # under the assumption `is_op_assign() == true`, every path to get_output_type crosses an is_const == false edge
-        der_op = ft.derived([c.dst["l"] for c in isop])
+        der_op = der_isop
         removed = set()
         for bb, t_t, f_t, pol in rules.bool_switches(ft, der_op):
             if pol is not None:
@@ -450,8 +450,29 @@ def run(ctx, rep):
         want = {"Value", "Index", "DotLookup", "UnaryUnwrap", "NilEval"}
         rep.ob("C10.guard", "root_ident follows identifiers, index steps, field steps, `get` and `or`", "ok" if want <= covered else "violated",
                "variants handled: %s" % sorted(covered), rt.span, fn=rt.path, key="C10.guard|root-ident-shape")
+        # ... and follows them all the way down: from the arm of a step (index, field, `get`, `or`) every path to the return asks root_ident
+        # about the operand the step was applied to (a helper that peels one step and then only looks for an identifier loses `a.b.c += 1`)
+        selfcalls = {c.bb for c in rt.calls() if c.matches("compiler::ast::math_expr::Expr::root_ident")}
+        rets = {i for i, blk in enumerate(rt.blocks) if blk["t"]["k"] == "return"}
+        shallow = []
+        n_arms = 0
+        for bi, blk in enumerate(rt.blocks):
+            t = blk["t"]
+            if t["k"] != "switch" or len(t["targets"]) < 2:
+                continue
+            for v, tgt in t["targets"]:
+                if int(v) < len(names) and names[int(v)] in want - {"Value"}:
+                    n_arms += 1
+                    if rt.reachable(tgt, removed_blocks=selfcalls) & rets:
+                        shallow.append(names[int(v)])
+        if n_arms:
+            rep.ob("C10.guard", "root_ident asks itself about the operand of every step (a path of any length is followed to its root)",
+                   "violated" if shallow else "ok",
+                   ("the arm of %s reaches the return without a recursive call: a const root two steps away (`c.a.b += 1`, `c[0][1] = 2`) is not found" % sorted(set(shallow)))
+                   if shallow else "%d step arms, each passing through a recursive call" % n_arms, rt.span, fn=rt.path, key="C10.guard|root-ident-depth")
     else:
         rep.ob("C10.guard", "root_ident helper", "undecided", "Expr::root_ident not found (the const test may be written inline)", ft.span, fn=ft.path)
+    storing_operators_take_the_const_test(F, rep)
 
     # named loop counter
     nl = need(F, "compiler::parser::Parser::number_loop")
@@ -1082,6 +1103,90 @@ def existence_is_asked_function_wide(F, rep, rule="C10.guard"):
                                st.get("sp"), fn=g.path, key="%s|lookup-extent|%s" % (rule, sub))
     rep.floor(rule + " previous-binding results of the declaration parsers", n, 2)
 
+
+
+STORING = ("bin_op_assign", "unwrap_into")    # the instructions that write the left operand of an operator expression
+
+
+def storing_operators_take_the_const_test(F, rep, rule="C10.guard"):
+    """The const test of an operator expression (`x op= v`, `x ?= v`) sits in Expr::for_type under a condition on the operator
+    (`op.is_op_assign() || matches!(op, Op::Unwrap)`).  Which operators *store* is decided somewhere else - by the arms of compile_depth that
+    lay down bin_op_assign / unwrap_into.  The two have to agree: an operator added to the storing arm (a new `<<=`) that the condition does not
+    know writes through a const root unchecked.  Decided by evaluation: the generator is run once per Op variant (the instruction words of every
+    path), and every Op predicate that Expr::for_type consults on the way to Expr::root_ident is run on the same variant."""
+    import seqgen
+    from absint import Variant, Opaque, Interp, Int
+    from props import C05 as _c05
+    EXPR = "compiler::ast::math_expr::Expr"
+    OP = "compiler::ast::math_expr::Op"
+    ea, oa = F.adt(EXPR), F.adt(OP)
+    cd = F.fn("compiler::ast::math_expr::compile_depth")
+    ft = F.fn("compiler::ast::math_expr::Expr::for_type")
+    if ea is None or oa is None or cd is None or ft is None:
+        raise AnchorMissing("Expr / Op / compile_depth / for_type")
+    en = [v["name"] for v in ea["variants"]]
+    on = [v["name"] for v in oa["variants"]]
+    ri = ft.calls_to("compiler::ast::math_expr::Expr::root_ident")
+    if not ri:
+        raise AnchorMissing("Expr::root_ident call in Expr::for_type")
+    # the predicates: calls of Op methods on the operator whose answer decides whether root_ident is reached
+    conds, cder = rules.storing_operator_conditions(F, ft)
+    preds = []
+    for c in conds:
+        nm = mir.strip_generics(c.callee())
+        der = ft.derived([c.dst["l"]], through_call=rules._opt_truth)
+        for bb, t_t, f_t, pol in rules.bool_switches(ft, der):
+            if pol is None:
+                continue
+            yes = t_t if pol else f_t
+            if any(r.bb in ft.reachable(yes) for r in ri) and nm not in [x[0] for x in preds]:
+                preds.append((nm, F.fn(nm)))
+    # discriminant tests of the operator on the way to root_ident (matches!(op, Op::Unwrap))
+    named = set()
+    for bi, blk in enumerate(ft.blocks):
+        t = blk["t"]
+        if t["k"] != "switch":
+            continue
+        dl = op_local(t["discr"])
+        src = [rv for b2, s2, dst, rv, s_ in ft.assigns() if dst["l"] == dl and "discr" in rv] if dl is not None else []
+        if not src:
+            continue
+        pl = src[0]["discr"]
+        ty = ft.locals[pl["l"]] if isinstance(pl, dict) and "l" in pl else ""
+        if "math_expr::Op" not in ty:
+            continue
+        for v, tgt in t["targets"]:
+            if int(v) < len(on) and tgt != t["otherwise"] and any(r.bb in ft.reachable(tgt) for r in ri) \
+                    and not any(r.bb in ft.reachable(t["otherwise"]) for r in ri):
+                named.add(on[int(v)])
+    n = 0
+    for op in on:
+        node = Variant(EXPR, en.index("BinOp"), "BinOp", [Opaque("lhs"), Variant(OP, on.index(op), op, []), Opaque("rhs")])
+        rows, ex = seqgen.sequences(F, cd, [node, Opaque("state"), Opaque("depth")], extra_models=_c05.OPAQUE_TYPING)
+        seqs = [r["seq"] for r in rows if r["seq"] is not None]
+        key = "%s|storing-operator|%s" % (rule, op)
+        if ex or not seqs:
+            rep.ob(rule, "`a %s b`: whether its code stores" % op, "undecided", "no sequence read (exhausted=%s)" % ex, cd.span, fn=cd.path, key=key)
+            continue
+        stores = sorted({x[1] for sq in seqs for x in sq if x[0] == "ins" and x[1] in STORING})
+        if not stores:
+            continue
+        n += 1
+        truth = {}
+        for nm, pf in preds:
+            if pf is None:
+                truth[nm] = None
+                continue
+            truth[nm] = rules.op_predicate_value(F, nm, op)
+        guarded = op in named or any(v is True for v in truth.values())
+        unknown = not guarded and any(v is None for v in truth.values())
+        rep.ob(rule, "`a %s b` stores into its left operand (%s): Expr::for_type takes the const test of the root for this operator" % (op, ", ".join(stores)),
+               "undecided" if unknown else ("ok" if guarded else "violated"),
+               "conditions on the operator in front of root_ident: %s; operators named by a match: %s" % (
+                   {mir.short(k): v for k, v in truth.items()}, sorted(named)) +
+               ("" if guarded else " -- none of them holds for Op::%s: `c.x %s v`, `c[0] %s v` and `module.member %s v` are accepted for a const root"
+                % (op, op, op, op)), ft.span, fn=ft.path, key=key)
+    rep.floor(rule + " storing operators judged", n, 6)    # += -= *= /= %= ?=
 
 
 def _module_predicates(F):
